@@ -734,10 +734,10 @@ impl RoutingTable {
     }
 //@end
 
-//@begin fn src/table.rs impl:RoutingTable bucket_index_for_node props=C08,C09
+//@begin fn src/table.rs impl:RoutingTable bucket_index_for_node props=C08,C09,C10,C11,C12
     pub fn bucket_index_for_node(&self, node_id: NodeId) -> (r: usize)
         requires self.buckets.len() >= 1,
-        ensures r == placement_spec(lbc(self.node_id, node_id) as int, self.buckets.len() as int), r < self.buckets.len(), // @C08.lookup_uses_placement
+        ensures r == placement_spec(lbc(self.node_id, node_id) as int, self.buckets.len() as int), r < self.buckets.len(), // @C08.lookup_uses_placement @C10.a_record_is_looked_up_in_the_bucket_it_was_placed_in @C11.a_record_is_looked_up_in_the_bucket_it_was_placed_in @C12.a_record_is_looked_up_in_the_bucket_it_was_placed_in
     {
         broadcast use lbc_ax;
         let bucket_index = leading_bit_count(self.node_id, node_id);
